@@ -15,4 +15,8 @@ open Qlibc.Generated.Shapes
     arguments (and the container) only, also when several threads are inside at once -/
 theorem no_hidden_static_state : encodeStatics = [] := by decide
 
+/-- the assert() calls of this family, as reviewed: comparisons of fields only - nothing is lost when the
+    release build (-DNDEBUG) drops them; a new or changed assert() has to be reviewed here -/
+theorem asserts_side_effect_free : encodeAsserts = [] := by decide
+
 end Qlibc.Shapes.Encode
